@@ -56,6 +56,13 @@ def _strategy(op_choices):
                 case["update_full"] = draw(st.booleans())
                 case["f"] = draw(gen.factor_params(fkind, R2, D, kappa))
                 case["elementwise"] = draw(st.booleans())
+            # unit consistency on the extreme overall scales: points and the factor are expressed in the measure's unit
+            unit = gen.unit_of(mkind, case["m"])
+            if unit != 1.0:
+                case["unit"] = unit
+                case["x"] = np.asarray(case["x"], float) * unit
+                if "f" in case:
+                    case["f"] = gen.rescale_factor(case["fkind"], case["f"], unit)
             return case
         return s()
     return make
